@@ -154,6 +154,37 @@ def run(p, report, tier):
         report.add("R20.2", ent, "-inf for candidates outside the subset", f"{sw.file}:{sw.node.lineno}", False,
                    detail="no -inf store into the returned utilities")
     check_subsampling_translation(p, report, sw, ent, tree, "R20.2")
+    # the ratio is converted to a count over the same collection that clips it and is drawn from
+    n_ratio = 0
+    for blk_owner in ast.walk(sw.node):
+        for field in ("body", "orelse"):
+            blk = getattr(blk_owner, field, None)
+            if not isinstance(blk, list):
+                continue
+            for i, st in enumerate(blk):
+                ceils = [c for b in st.body if isinstance(b, ast.Assign) for c in ast.walk(b.value)
+                         if isinstance(c, ast.Call) and c01.callname(c) == "ceil"
+                         and any(isinstance(x, ast.Call) and c01.callname(x) == "len" for x in ast.walk(c))] \
+                    if isinstance(st, ast.If) else []
+                if not ceils:
+                    continue
+                measured = [ast.unparse(x.args[0]) for x in ast.walk(ceils[0]) if isinstance(x, ast.Call)
+                            and c01.callname(x) == "len" and x.args]
+                clip = None
+                for nx in blk[i + 1:]:
+                    if isinstance(nx, ast.Assign) and isinstance(nx.value, ast.Call) and c01.callname(nx.value) == "min":
+                        clip = [ast.unparse(x.args[0]) for x in ast.walk(nx.value) if isinstance(x, ast.Call)
+                                and c01.callname(x) == "len" and x.args]
+                        break
+                n_ratio += 1
+                ok = bool(measured) and clip is not None and measured[:1] == clip[:1]
+                report.add("R20.2", ent, f"ratio converted over the collection that is clipped: `{norm_stmt(ceils[0], 50)}`",
+                           f"{sw.file}:{ceils[0].lineno}", ok,
+                           detail=f"both measure `{measured[0]}`" if ok else
+                           f"the ratio is applied to len({measured[0] if measured else '?'}) but the count is clipped to "
+                           f"len({clip[0] if clip else '?'}): the subset does not have the documented size")
+    if n_ratio < 2:
+        raise AnalysisError("SubSamplingWrapper.query: ratio-to-count conversions vanished")
     # ---------------- R20.3
     sa = p.get_class("SingleAnnotatorWrapper")
     g = sa.methods.get("_get_order_preserving_s_query")
